@@ -73,7 +73,7 @@ def _history(draw):
         elif kind == "set_method":
             ops.append([kind, draw(st.sampled_from(METHOD_POOL))])
         elif kind == "set_tf":
-            ops.append([kind, draw(st.sampled_from([1.0, 1.5, 0.6]))])
+            ops.append([kind, draw(st.sampled_from([1.0, 1.5, 0.6, -1.0]))])      # (-1.0: the span mirrored about t0 - the other direction)
         elif kind == "set_kick":
             ops.append([kind, draw(st.sampled_from(["default", "first_half"]))])
         elif kind == "integrate_events":
@@ -86,6 +86,9 @@ def _history(draw):
         # a kick mask set while one splitting method is selected, then another splitting method (or the same again)
         a_, b_ = draw(st.sampled_from(["ABAs5o6HSolver", "SymplecticEulerSolver", "BABs9o7HSolver"])), draw(st.sampled_from(["BABs9o7HSolver", "ABAs5o6HSolver", "SymplecticEulerSolver"]))
         ops = [["set_method", a_], ["set_kick", draw(st.sampled_from(["first_half", "default"]))], ["set_method", b_]] + ops
+    if draw(st.integers(0, 5)) == 0:
+        # a run one way (with lookups in its dense output, see snapshot()), reset(), then a run the other way
+        ops = [["integrate"], ["reset"], ["set_tf", -1.0], ["integrate"]] + ops
     return dict(part="history", prob=prob, y0=draw(PR.state(prob["shape"])), t0=t0, tf=t0 + direction * L, dt=draw(st.sampled_from([0.1, 0.05, 0.25])),
                 rtol=1e-6, atol=1e-6, dense=draw(st.booleans()), method=draw(st.sampled_from(METHOD_POOL)), constants=draw(st.sampled_from([{}, {"k": 1.5}])), ops=ops)
 
@@ -166,8 +169,17 @@ class Sys(object):
 
     def snapshot(self):
         a = self.a
+        tt = np.asarray(a.t, dtype=np.float64)
+        q = None
+        if a.sol is not None and len(tt) >= 2 and len(a.sol.t_eval or []) >= 1 and np.all(np.isfinite(tt)):
+            # a few lookups strictly inside recorded steps (first, middle, last): part of what "the same answer" means with dense output
+            ks = sorted(set([0, (len(tt) - 1) // 2, len(tt) - 2]))
+            try:
+                q = [np.asarray(a.sol(np.float64(tt[k] + 0.5 * (tt[k + 1] - tt[k]))), dtype=np.float64).copy() for k in ks]
+            except Exception as e:
+                q = [repr(e)]
         return dict(t=np.asarray(a.t).copy(), y=np.asarray(a.y).copy(), ev=[(float(e.t), np.asarray(e.y).copy()) for e in a.events], dt=float(a.dt), nfev=a.nfev,
-                    status=a.integration_status, npieces=(len(a.sol.t_eval or []) if a.sol is not None else None))
+                    status=a.integration_status, npieces=(len(a.sol.t_eval or []) if a.sol is not None else None), q=q)
 
 
 def _mask(kind, shape):
@@ -193,6 +205,9 @@ def _same(s1, s2):
         return "status differs ({!r} vs {!r})".format(s1["status"], s2["status"])
     if s1["npieces"] != s2["npieces"]:
         return "dense output differs ({} vs {} pieces)".format(s1["npieces"], s2["npieces"])
+    q1, q2 = s1.get("q"), s2.get("q")
+    if (q1 is None) != (q2 is None) or (q1 is not None and (len(q1) != len(q2) or any(isinstance(u, str) or isinstance(v, str) or not np.array_equal(u, v, equal_nan=True) for u, v in zip(q1, q2)))):
+        return "dense-output values inside recorded steps differ ({} vs {})".format([u if isinstance(u, str) else np.asarray(u).tolist() for u in (q1 or [])][:2], [v if isinstance(v, str) else np.asarray(v).tolist() for v in (q2 or [])][:2])
     return None
 
 
